@@ -157,7 +157,7 @@ async fn stream_once(rng: &mut Rng, c: &mut Counters) -> Value {
         v
     });
     // in a task of its own: a panic of the code under test is data
-    let call = tokio::spawn(async move { tokio::time::timeout(Duration::from_secs(20), p.execute_stream(boxed, in_rx, out_tx)).await });
+    let call = tokio::spawn(async move { tokio::time::timeout(Duration::from_secs(90), p.execute_stream(boxed, in_rx, out_tx)).await });
     let r = match call.await {
         Ok(r) => r,
         Err(e) => {
